@@ -13,7 +13,10 @@ STRONG_PAIRS = [
     (":- p(X), q(X).", ":- q(X), p(X)."), ("p(X) :- q(X). q(X) :- p(X).", "p(X) :- q(X)."), ("s :- p(1).", "s :- p(1), not not p(1)."),
     ("p(X) :- q(X), not p(X).", ":- q(X), not p(X)."), ("p(X/2) :- q(X).", "p(Y) :- q(X), Y = X/2."), ("p(X) :- X = 1..2.", "p(1..2)."),
     ("p(X) :- q(X), X != 1.", "p(X) :- q(X), X < 1. p(X) :- q(X), X > 1."), ("t(X, Y) :- q(X), q(Y).", "t(Y, X) :- q(X), q(Y)."),
-    ("{p(1)}.", "p(1) :- not not p(1)."), ("s. p(1) :- s.", "s. p(1)."), ("p(X) :- q(X), not not r(X).", "p(X) :- q(X), r(X)."),
+    ("{p(1)}.", "p(1) :- not not p(1)."),
+    # one predicate name at two arities; constraints with positive bodies
+    ("p(1). s :- p(X, Y), not p(X, Y).", "p(1)."), ("p(X) :- p(X, Y). p(1, 2).", "p(1). p(1, 2)."), ("q(X) :- q(X, X), not q.", "q(X) :- q(X, X), not q, not not q(X, X)."),
+    (":- p(1).", ":- not not p(1)."), (":- p(X), q(X).", ":- p(X), not not q(X)."), (":- s.", ":- not not s."), ("s :- p(1). :- s.", ":- p(1). s :- p(1)."), ("s. p(1) :- s.", "s. p(1)."), ("p(X) :- q(X), not not r(X).", "p(X) :- q(X), r(X)."),
 ]
 
 
